@@ -8,7 +8,10 @@ through the cfg-guarded fault points; the observed top-level exit status must be
 admits for that scenario, and status 0 requires a complete output (compared byte-for-byte with a
 fault-free link).  For a sample of the replays the hook trace of the worker (phase, protocol-scope and
 fault events) is validated by TLC against Wild.tla: phases in order, scopes inside layout, nothing
-after the fault - which also ties the fault points' placement to the model.
+after the fault - which also ties the fault points' placement to the model.  Wild.tla is model-checked too, and
+links that succeed or fail on their own (undefined / duplicate symbol, missing input; fork / no-fork; 1-8
+threads) are traced and validated against it together with the exit status their caller saw
+(SuccessMeansFinished: status 0 only after `finished` was reached without an error).
 """
 from vlib import lifecycle as lc
 
@@ -45,6 +48,8 @@ def judge(scn, adm, obs):
 def run(ctx):
     cov = {}
     cov["anti_vacuity"] = [lc.anti_vacuity("mc/Lifecycle_noCheckSignaled.cfg", "ExitZeroImpliesComplete")]
+    cov["pipeline_model"] = lc.pipeline_model()
+    lc.natural_links(ctx, PROP, cov)
     lc.replay(ctx, PROP, select, judge, n_quick=160, n_thorough=2000, cov=cov, trace_sample=16 if ctx.quick else 100)
     return {"level": "fault_enumeration", "coverage": lc.generic_cov(cov),
             "assumptions": ["fault points placed by hooks; fault kinds are the real mechanisms",
